@@ -475,6 +475,9 @@ func analyse(x *Exec) *RunResult {
 		if x.FDsAfter != x.FDsBefore {
 			add(Violation{Kind: "fd-leak", Watcher: -1, Site: "process", Detail: fmt.Sprintf("inotify descriptors of the process: %d before, %d after the run", x.FDsBefore, x.FDsAfter)})
 		}
+		if len(x.FDLeaks) > 0 {
+			add(Violation{Kind: "fd-leak", Watcher: -1, Site: "process-descriptor", Detail: fmt.Sprintf("descriptors the process did not hold before the run and still holds after it (the harness has closed everything it opened itself): %v", x.FDLeaks)})
+		}
 		// failed NewWatcher leaks nothing
 		for _, wr := range x.W {
 			if wr.W == nil && wr.CreateErr != "" && len(x.sim.Inst) > 0 {
